@@ -157,6 +157,26 @@ def pkg_dir():
     return _pkg_dir
 
 
+_odd_dirs = {}
+
+
+def odd_dir(how):
+    """A directory that is on sys.path only under an un-normalised spelling ('tests/../lib', './lib', 'a//lib'), as
+    scripts that build their sys.path entries with os.path.join(dirname, '..', 'lib') have it: the interpreter
+    reports file names exactly as spelled."""
+    if how not in _odd_dirs:
+        base = pkg_dir()
+        real = os.path.join(base, 'odd-' + how, 'lib')
+        os.makedirs(real)
+        os.makedirs(os.path.join(base, 'odd-' + how, 'tests'), exist_ok=True)
+        entry = {'dotdot': os.path.join(base, 'odd-' + how, 'tests', '..', 'lib'),
+                 'dot': os.path.join(base, 'odd-' + how, '.', 'lib'),
+                 'slashes': os.path.join(base, 'odd-' + how) + '//lib'}[how]
+        sys.path.insert(1, entry)
+        _odd_dirs[how] = real
+    return _odd_dirs[how]
+
+
 LINKS = ['func', 'method', 'lambda', 'generator', 'exec', 'nested', 'staticmethod', 'listcomp', 'reraise-saved',
          'reraise-in-except', 'genexpr-recursion', 'pseudo-file']
 EXC_DEFS = '''
@@ -305,7 +325,8 @@ def build_module(c):
         if MemFinder not in sys.meta_path:
             sys.meta_path.insert(0, MemFinder)
         return name
-    with open(os.path.join(pkg_dir(), name + '.py'), 'w', encoding='utf-8') as f:
+    target = odd_dir(c['odd_path']) if c.get('odd_path') else pkg_dir()
+    with open(os.path.join(target, name + '.py'), 'w', encoding='utf-8') as f:
         f.write('\n'.join(src))
     return name
 
@@ -467,7 +488,7 @@ def check_live(c, st):
         sys.modules.pop(name, None)
         MemFinder.sources.pop(name, None)
         try:
-            os.unlink(os.path.join(pkg_dir(), name + '.py'))
+            os.unlink(os.path.join(odd_dir(c['odd_path']) if c.get('odd_path') else pkg_dir(), name + '.py'))
         except OSError:
             pass
 
@@ -484,6 +505,8 @@ def gen_live(r):
         c['mem'] = r.random() < 0.7
         c['at_import'] = r.random() < 0.6
         c['cold'] = r.choice([False, True, True, 'after-capture', 'after-capture'])
+    if not c.get('mem') and not c.get('rerun') and r.random() < 0.25:
+        c['odd_path'] = r.choice(['dotdot', 'dot', 'slashes'])      # found through an un-normalised sys.path entry
     return c
 
 
@@ -517,6 +540,8 @@ def cleanup():
     if MemFinder in sys.meta_path:
         sys.meta_path.remove(MemFinder)
     if _pkg_dir:
+        sys.path[:] = [p for p in sys.path if not p.startswith(_pkg_dir)]
+        _odd_dirs.clear()
         if _pkg_dir in sys.path:
             sys.path.remove(_pkg_dir)
         shutil.rmtree(_pkg_dir, ignore_errors=True)
